@@ -12,6 +12,6 @@ for f in /verif/selftest/benign/${1:-*}.diff; do
     [ -n "$r" ] && out="$out
 $r"
   done
-  git checkout -q -- .
+  git checkout -q -- . && git clean -fdq
   if [ -n "$out" ]; then echo "== $b: FALSE ALARM$out"; else echo "== $b: silent"; fi
 done
